@@ -82,9 +82,27 @@ pub fn iso_s() -> BoxedStrategy<IsoCase> {
 
 fn stream_source(s: &Stream) -> String {
     let mut src = format!("db [{}]\n{}: dw 0x1234\nstart:\n", s.pad, LBL);
-    for i in &s.insns {
-        src.push_str(&canonical(i));
+    // three code labels at places that depend on the stream, and jumps to them sprinkled in: the two programs of a case use
+    // the same label names for different places (the runner logs where every jump wants to go and carries on with the
+    // next line, so the streams stay straight-line)
+    let n = s.insns.len();
+    let at = |k: usize| (s.regs[k] as usize) % (n + 1);
+    for (i, ins) in s.insns.iter().enumerate() {
+        for k in 0..3 {
+            if at(k) == i {
+                src.push_str(&format!("t_{}:\n", k));
+            }
+        }
+        src.push_str(&canonical(ins));
         src.push('\n');
+        if (s.regs[5 + i % 8] >> (i % 13)) & 3 == 0 {
+            src.push_str(&format!("{} t_{}\n", ["jmp", "jz", "jnz", "loop", "jmp", "jcxz"][(s.regs[3] as usize + i) % 6], (i + s.regs[4] as usize) % 3));
+        }
+    }
+    for k in 0..3 {
+        if at(k) == n {
+            src.push_str(&format!("t_{}:\n", k));
+        }
     }
     src
 }
@@ -206,6 +224,9 @@ pub fn eval_iso(c: &IsoCase) -> CaseOutcome {
         }
     }
     let mut classes = vec!["c19/isolation".to_string()];
+    if ra.ictx.label_map.iter().any(|(k, v)| k.starts_with("t_") && rb.ictx.label_map.get(k).map(|w| w.map != v.map).unwrap_or(false)) && ra.log.iter().any(|l| l.contains("Jmp")) && rb.log.iter().any(|l| l.contains("Jmp")) {
+        classes.push("c19/isolation-same-label-name-at-different-places-both-jump".into());
+    }
     if switches >= 10 {
         classes.push("c19/isolation-10-switches".into());
     }
@@ -799,6 +820,7 @@ pub fn run(ctx: &Ctx) {
     ctx.note(&format!("determinism part finished after {:.1}s", ctx.start.elapsed().as_secs_f64()));
     ctx.require_class("c19/isolation-10-switches", 500);
     ctx.require_class("c19/isolation-interleaved-inside-rep", 50);
+    ctx.require_class("c19/isolation-same-label-name-at-different-places-both-jump", 200);
     ctx.require_class("c19/parser-history-with-error", 500);
     ctx.require_class("c19/determinism-several-errors", 100);
     ctx.require_class("c19/determinism-several-undefined-labels-reported", 30);
